@@ -240,6 +240,16 @@ def run_history(cfg, history, col, case_base, check=True):
                         gerr = None
                     except (DataAccessError, OSError) as exc:
                         got, gerr = None, exc
+                    except Exception as exc:
+                        c = dict(case_base, history=history[:n + 1],
+                                 reader="same-handle",
+                                 name=list(nm2) if isinstance(nm2, tuple)
+                                 else nm2)
+                        col.violation("C12/fetch/unexpected-exception/"
+                                      + type(exc).__name__, c,
+                                      "bytes or DataAccessError",
+                                      repr(exc)[:200])
+                        return None
                     if nm2 in model and (gerr is not None
                                          or bytes(got) != model[nm2]):
                         c = dict(case_base, history=history[:n + 1],
